@@ -107,6 +107,31 @@ func oracleC12(x *Exec, so *StepObs) {
 	if isDryOp(op) || r.Crashed {
 		return
 	}
+	if op.Op == "cli" {
+		// the command line route: only the last sentence is judged (--no-hooks must reach whichever action the command
+		// ends up running, e.g. the install that `upgrade --install` falls back to)
+		if !op.NoHooks {
+			return
+		}
+		x.Res.Checks++
+		all := map[string]bool{}
+		for ci := range x.Plan.Charts {
+			for i := range x.Plan.Charts[ci].Slots {
+				if x.Plan.Charts[ci].Slots[i].Hook != nil {
+					all[slotID(&x.Plan.Charts[ci].Slots[i], x.Plan.Namespace).String()] = true
+				}
+			}
+		}
+		for _, q := range r.Reqs {
+			if q.Verb == "POST" && q.ID != nil && all[q.ID.String()] && q.SeqOut != 0 {
+				x.Violate(Violation{"C12", "disabled-hooks-not-created", "cli-" + op.CLIKind, "nohooks" + ledgerCtx(so.Before), fmt.Sprintf("hook %s was created although hooks are disabled (helm %s)", q.ID, strings.Join(op.CLI, " ")), so.Index})
+				x.stop = true
+				return
+			}
+		}
+		x.Sim.Probe("c12-cli-nohooks-judged")
+		return
+	}
 	if op.Atomic {
 		// only the last sentence of the statement is judged for --atomic: with hooks disabled none is created, not by the
 		// operation itself and not by the rollback / uninstall it runs on failure (whose hooks come from other chart versions)
@@ -451,6 +476,41 @@ func genC12(seed, index uint64, tier string) *Plan {
 				p.Steps[si].Faults = []FaultSpec{{Kind: FReject, Code: 403, Pred: &Pred{Storage: boolp(false), Mutating: boolp(true), PathHas: "/namespaces/", Nth: 1 + g.N(2)}}}
 				break
 			}
+		}
+	}
+	if p.Variant == "clean" && g.Chance(0.15) {
+		// --no-hooks given on the command line (pkg/cmd): the flag has to reach the action that finally runs
+		si := g.N(len(p.Steps))
+		o := p.Steps[si].Op
+		cli := &OpSpec{Op: "cli", Chart: o.Chart, NoHooks: true, TimeoutS: o.TimeoutS}
+		switch o.Op {
+		case "install":
+			cli.CLIKind = g.Pick("install", "upgrade-install")
+		case "upgrade":
+			cli.CLIKind = g.Pick("upgrade", "upgrade-install")
+		case "rollback":
+			cli.CLIKind = "rollback"
+		case "uninstall":
+			cli.CLIKind = "uninstall"
+		}
+		switch cli.CLIKind {
+		case "install":
+			cli.CLI = []string{"install", "rel", "@CHART@", "-n", "ns1", "--no-hooks"}
+		case "upgrade":
+			cli.CLI = []string{"upgrade", "rel", "@CHART@", "-n", "ns1", "--no-hooks"}
+		case "upgrade-install":
+			cli.CLI = []string{"upgrade", "rel", "@CHART@", "-n", "ns1", "--install", "--no-hooks"}
+		case "rollback":
+			cli.CLI = []string{"rollback", "rel", fmt.Sprint(o.Revision), "-n", "ns1", "--no-hooks"}
+		case "uninstall":
+			cli.CLI = []string{"uninstall", "rel", "-n", "ns1", "--no-hooks"}
+			if o.KeepHistory {
+				cli.CLI = append(cli.CLI, "--keep-history")
+			}
+		}
+		if cli.CLIKind != "" {
+			p.Variant = "cli-nohooks"
+			p.Steps[si].Op = cli
 		}
 	}
 	if p.Variant == "clean" && g.Chance(0.4) {
